@@ -7,7 +7,7 @@
    that no table of the user's document has a key twice (TOML forbids it, a Python dict
    cannot hold it). *)
 From AwVerif Require Import Base.Prelude Model.Config
-  Proofs.ConfigProofs Proofs.ConfigIO Proofs.ConfigFirstRun.
+  Proofs.ConfigProofs Proofs.ConfigIO Proofs.ConfigFirstRun Proofs.ConfigFirstRunSyn.
 
 (* The overlay law (DESIGN section 5): for every key, the result holds the user's value where
    the user's file sets the key - two tables being merged by the same law, one level down -
@@ -62,32 +62,46 @@ Theorem C20_merge_own_skeleton : forall t,
 Proof. exact merge_own_skeleton. Qed.
 Print Assumptions C20_merge_own_skeleton.
 
-(* First-run neutrality, for every line-model document whose values are one-line and whose
-   [table] headers name tables that are not inside an array of tables: the commented-out
-   document parses, and merging it into the defaults gives the defaults.
-   PARTIAL with respect to the property text, which has no such restriction on headers;
-   without it the statement is false of the current code (C20_first_run_neutral_refuted). *)
+(* First-run neutrality, for every line-model document whose values are one-line, whose
+   inline values hold no array of tables, and in which no [table] header path runs through
+   (or equals) an [[array-of-tables]] header path: the commented-out document parses, and
+   merging it into the defaults gives the defaults.
+   PARTIAL with respect to the property text, which has no restriction on headers; without it
+   the statement is false of the current code (C20_first_run_neutral_refuted). *)
 Theorem C20_first_run_neutral_partial : forall doc t,
+  one_line_values doc ->
+  Forall line_aot_free doc ->
+  no_header_under_aot doc ->
+  parse_lines doc = Ok t ->
+  exists s, parse_lines (comment_out doc) = Ok s /\ merge t s = t.
+Proof. exact first_run_neutral_syntactic. Qed.
+Print Assumptions C20_first_run_neutral_partial.
+
+(* The same from a hypothesis on the parsed document instead of its text (weaker, so this
+   theorem is more general): every [table] header names a table that is reached through
+   tables only. *)
+Theorem C20_first_run_neutral_tables_partial : forall doc t,
   one_line_values doc ->
   parse_lines doc = Ok t ->
   Forall (fun p => tab_path p t) (headers doc) ->
   exists s, parse_lines (comment_out doc) = Ok s /\ merge t s = t.
 Proof. exact first_run_neutral. Qed.
-Print Assumptions C20_first_run_neutral_partial.
+Print Assumptions C20_first_run_neutral_tables_partial.
 
 (* ... and through the I/O script: the first load returns the defaults and writes the
    commented-out document; every later load returns the defaults and writes nothing. *)
 Theorem C20_first_run_later_loads_partial : forall doc t,
   one_line_values doc ->
+  Forall line_aot_free doc ->
+  no_header_under_aot doc ->
   parse_lines doc = Ok t ->
-  Forall (fun p => tab_path p t) (headers doc) ->
   let r1 := load_lines doc None in
   lr_value r1 = Ok t /\
   lr_file r1 = Some (comment_out doc) /\
   forall r, lr_file r = lr_file r1 ->
     let r2 := load_lines doc (lr_file r) in
     lr_value r2 = Ok t /\ lr_file r2 = lr_file r1 /\ writes (lr_trace r2) = [].
-Proof. exact first_run_then_later_loads. Qed.
+Proof. exact first_run_then_later_loads_syntactic. Qed.
 Print Assumptions C20_first_run_later_loads_partial.
 
 (* The unrestricted statement is refuted by the faithful model: [[1]] / 2 = .. / [1.3] / 4 = ..
@@ -175,11 +189,18 @@ Example C20_nonvacuous_first_run :
   let t := [(1, Leaf 10);
             (2, Tab [(1, Leaf 11); (3, Tab [(4, Tab [(5, Leaf 12)])]); (8, Tab [(1, Tab [(9, Leaf 10)])])]);
             (6, Aot [Tab [(1, Leaf 10)]; Tab [(1, Leaf 13)]]); (7, Tab [])] in
-  one_line_values doc /\ parse_lines doc = Ok t /\
+  one_line_values doc /\ Forall line_aot_free doc /\ no_header_under_aot doc /\
+  parse_lines doc = Ok t /\
   Forall (fun p => tab_path p t) (headers doc) /\
   parse_lines (comment_out doc) = Ok [(2, Tab [(3, Tab [(4, Tab [])]); (8, Tab [])]); (7, Tab [])].
 Proof.
-  cbv zeta. split; [repeat constructor|]. split; [vm_compute; reflexivity|].
+  cbv zeta. split; [repeat constructor|].
+  split; [repeat constructor; apply aot_free_leaf|].
+  split.
+  { intros p q Hp Hq [r Hr]. cbn in Hp, Hq.
+    repeat (destruct Hp as [Hp|Hp]; [subst p|]); try contradiction;
+    repeat (destruct Hq as [Hq|Hq]; [subst q|]); try contradiction; discriminate. }
+  split; [vm_compute; reflexivity|].
   split; [|vm_compute; reflexivity].
   repeat constructor.
 Qed.
